@@ -78,6 +78,71 @@ func (cc *realConsumer) run() {
 	}
 }
 
+// realObsReceiver / realObsSink: the observer at the base.MultiSinkBufferReceiver seam in front of the shipped orchestrator.
+// It cannot look into the worker goroutine; it checks what is handed over and overwrites the batch slice after the call.
+// A batch that is certainly corrupt is reported and NOT handed on (the shipped worker would end the process by a panic in
+// its own goroutine, e.g. "negative reference count", which is still a verdict but costs the results of the worker process).
+type realObsReceiver struct {
+	real             base.MultiSinkBufferReceiver
+	alloc            *base.LogAllocator
+	pidLoc           base.LogFieldLocator
+	nfields          int
+	failKey, failMsg string
+}
+
+type realObsSink struct {
+	o    *realObsReceiver
+	real base.BufferReceiverSink
+}
+
+const poisonMarker = "POISON"
+
+func (o *realObsReceiver) NewSink(addr string, num base.ClientNumber) base.BufferReceiverSink {
+	return &realObsSink{o: o, real: o.real.NewSink(addr, num)}
+}
+
+func (o *realObsReceiver) fail(key, msg string) {
+	if o.failKey == "" {
+		o.failKey, o.failMsg = key, msg
+	}
+}
+
+func (s *realObsSink) Tick()  { s.real.Tick() }
+func (s *realObsSink) Close() { s.real.Close() }
+
+func (s *realObsSink) Accept(buffer []*base.LogRecord) {
+	o := s.o
+	seen := map[*base.LogRecord]bool{}
+	corrupt := false
+	for _, record := range buffer {
+		if seen[record] {
+			o.fail("alias:record-delivered-twice", fmt.Sprintf("the parser sink handed over one batch that holds the same *LogRecord twice (it reads marker %q)", o.pidLoc.Get(record.Fields)))
+			corrupt = true
+		}
+		seen[record] = true
+		// the parser sets RawLength to the length of the line (>= 32); Release resets it to 0
+		if record.RawLength == 0 {
+			o.fail("alias:released-record-handed-over", "the parser sink handed over a *LogRecord whose RawLength is 0: it was released (cleared, back in the pool) and is still being passed on")
+			corrupt = true
+		}
+	}
+	if corrupt {
+		return
+	}
+	s.real.Accept(buffer)
+	// overwrite the slots with fresh records (one per slot, reference count = number of outputs), so that a pipeline that
+	// kept the slice delivers them instead of dying
+	for i := range buffer {
+		poison, _ := o.alloc.NewRecord(nil)
+		for j := range poison.Fields[:o.nfields] {
+			poison.Fields[j] = ""
+		}
+		o.pidLoc.Set(poison.Fields, poisonMarker)
+		poison.RawLength = 32
+		buffer[i] = poison
+	}
+}
+
 type realSchedule struct {
 	name   string
 	conns  int
@@ -136,7 +201,9 @@ func checkReal(ov orchVariant, os_ outputSet, seqShapes []shape2, sc realSchedul
 		}
 		return parser
 	}
-	receiver := bsupport.NewLogParsingReceiver(logger.Root(), createParser, orch, mfInput.AddOrGetPrefix("input_", nil, nil))
+	// the overwriting records come from an allocator of their own: taking them from the pipeline's pools would disturb the reuse under test
+	obs := &realObsReceiver{real: orch, alloc: base.NewLogAllocator(schema, len(conf.OutputBuffersPairs)), pidLoc: schema.MustCreateFieldLocator("pid"), nfields: schema.GetMaxFields()}
+	receiver := bsupport.NewLogParsingReceiver(logger.Root(), createParser, obs, mfInput.AddOrGetPrefix("input_", nil, nil))
 	sinks := make([]base.MessageReceiverSink, sc.conns)
 	for i := range sinks {
 		sinks[i] = receiver.NewSink(fmt.Sprintf("10.0.0.%d:1000", i+1), base.ClientNumber(i+1))
@@ -163,6 +230,9 @@ func checkReal(ov orchVariant, os_ outputSet, seqShapes []shape2, sc realSchedul
 		s.Close()
 	}
 	orch.Shutdown()
+	if obs.failKey != "" {
+		return obs.failKey, where + ": " + obs.failMsg
+	}
 	if l := logCap.FirstBugLine(); l != "" {
 		return "bug-log", where + ": " + l
 	}
@@ -236,6 +306,9 @@ func checkReal(ov orchVariant, os_ outputSet, seqShapes []shape2, sc realSchedul
 				if marker(i) == m && seqShapes[i].raw == "" {
 					idx = i
 				}
+			}
+			if idx < 0 && m == poisonMarker {
+				return "alias:batch-slice-retained-after-accept", fmt.Sprintf("%s: output %d (%s) delivered a record the harness wrote into the batch slice AFTER BufferReceiverSink.Accept had returned: the orchestrator kept the caller's slice (\"The buffer is NOT usable after the function exits\")", where, o, kind)
 			}
 			if idx < 0 {
 				return "pipeline:record-of-nobody", fmt.Sprintf("%s: output %d (%s) delivered a record whose pid %q is the marker of no line of the sequence: %s", where, o, kind, m, clip(r.render(true)))
